@@ -930,6 +930,6 @@ def oracle(ctx):
     oracle_trees2(o, rng, ctx.n(250, 20000), 5)
     oracle_embeddings(o, rng, ctx.n(300, 20000))
     oracle_double_cover(o, rng, ctx.n(300, 20000))
-    oracle_constructors(o, rng, ctx.n(120, 10000))
+    oracle_constructors(o, rng, ctx.n(120, 4000))
     oracle_structure(o, rng, ctx.n(100, 5000))
-    oracle_multi(o, rng, ctx.n(60, 5000))
+    oracle_multi(o, rng, ctx.n(60, 2000))
